@@ -469,3 +469,16 @@ func conforms(v, s *schemaShape, topLevel bool) (bool, string) {
 		return true, ""
 	}
 }
+
+// anchorFuncName: the name under which the rules know a function of this package: its old name if it was renamed.
+func (pl *plit) anchorFuncName(cur string) string {
+	if len(fnAlias) == 0 {
+		return cur
+	}
+	for f, old := range fnAlias {
+		if f.Name() == cur && f.Pkg != nil && f.Pkg.Pkg.Path() == pl.pkg.PkgPath {
+			return old
+		}
+	}
+	return cur
+}
